@@ -243,3 +243,65 @@ func VerifHarness_MemoryDemand() {
 		errors.VerifAssert("exceeding-the-limit-is-stopped", !ok)
 	}
 }
+
+// Loop bodies whose every iteration must give back its operands, frames and memory: exits taken while operands of
+// an unfinished expression are pending, exceptions caught in the same frame and in a caller, early returns.
+var verifLoopBodies = []struct{ name, decl, body string }{
+	{"call-with-locals", "fn work(n: int) -> int {\n  let a = n + 1;\n  let b = a * 2;\n  return b;\n}\n", "    s += work(i) - work(i);\n"},
+	{"catch-same-frame-pending-operands", "", "    s = s + (1 + (2 + try { if i >= 0 { throw(\"x\"); } 1 } catch e { 0 - 3 }));\n"},
+	{"catch-in-caller", "fn boom(n: int) -> int {\n  let q = n * 2;\n  if n >= 0 { throw(\"x\"); }\n  return q;\n}\n", "    s = s + (1 + try { boom(i) } catch e { 0 - 1 });\n"},
+	{"catch-in-caller-pending-in-callee", "fn boom(n: int) -> int {\n  return 1 + (2 + { if n >= 0 { throw(\"x\"); } 3 });\n}\n", "    s = s + try { boom(i) } catch e { 0 };\n"},
+	{"continue-with-pending-operands", "", "    s = s + (1 + { if i >= 0 { continue; } 2 });\n"},
+	{"break-inner-loop-with-pending-operands", "", "    loop {\n      s = s + (1 + { if i >= 0 { break; } 2 });\n    }\n"},
+	{"return-with-pending-operands", "fn early(n: int) -> int {\n  return 1 + (2 + { if n >= 0 { return 0; } 3 });\n}\n", "    s += early(i);\n"},
+	{"match-arm-exit", "", "    s = s + (1 + match i { 0 => { 0 - 1 }, _ => { if i > 0 { continue; } 5 } });\n"},
+	{"for-over-list-break", "", "    for x in [1, 2, 3] {\n      if x == 2 { break; }\n      s += 0;\n    }\n"},
+	{"nested-try-rethrow", "", "    s = s + try { 1 + try { if i >= 0 { throw(\"a\"); } 1 } catch e { throw(\"b\") } } catch f { 0 };\n"},
+}
+
+// VerifHarness_LoopStability: a loop of bounded depth behaves the same for 1 and for 60 iterations under every
+// (tight) operand-stack / memory / call-depth limit: nothing accumulates from one iteration to the next.
+func VerifHarness_LoopStability() {
+	bi := errors.VerifNdIntRange("body", 0, len(verifLoopBodies)-1)
+	b := verifLoopBodies[bi]
+	errors.VerifTag("body", b.name)
+	which := errors.VerifNdIntRange("limit", 0, 2) // 0 operand stack, 1 memory, 2 call depth
+	sizes := []uint{4, 6, 8, 10, 12, 16, 20, 24, 32, 48}
+	lim := sizes[errors.VerifNdIntRange("size", 0, len(sizes)-1)]
+	errors.VerifTag("limit-kind", []string{"stack", "memory", "calls"}[which])
+	errors.VerifTag("__limit", fmt.Sprint(lim))
+	limits := verifLimits
+	switch which {
+	case 0:
+		limits.StackMaxSize = lim
+	case 1:
+		limits.MaxMemorySize = lim
+	default:
+		limits.CallStackMaxSize = lim
+	}
+	code := b.decl + "fn main() {\n  let s = 0;\n  for i in 0..K {\n" + b.body + "  }\n  println(s);\n}\n"
+	var classes [2]string
+	var outs [2]string
+	for idx, k := range []int64{1, 60} {
+		inputs := []verifInput{{name: "K", kind: 'i', i: k}}
+		an := verifAnalyze(code, nil, inputs, true)
+		if an.hasError {
+			errors.VerifInconclusive("loop program rejected: " + an.describe())
+		}
+		o, crashed, msg := verifRunVMGuarded(an, inputs, limits)
+		if crashed {
+			errors.VerifTag("panic", errors.VerifNorm(msg))
+		}
+		errors.VerifAssert("limit-never-crashes-the-host", !crashed)
+		if crashed {
+			return
+		}
+		errors.VerifAssert("outcome-is-completion-or-overflow", o.class == "ok" || verifIsOverflow(o.class) || o.class == "init-interrupt")
+		classes[idx], outs[idx] = o.class, o.out
+	}
+	errors.VerifReached("ran")
+	if classes[0] == "ok" {
+		errors.VerifReached("one-iteration-fits")
+	}
+	errors.VerifAssert("bounded-depth-loop-runs-indefinitely", (classes[0] == "ok") == (classes[1] == "ok"))
+}
